@@ -16,7 +16,8 @@ KEYS = ['a', 'b', 'c', 'd', -1, -2, 0, 1, 2, True, False,     # True == 1, False
 
 
 def gen_pipeline(rng, n_roots=1):
-    src = {'k': 'source', 'cls': 'S0', 'ids': ['a', 'b', 'c'], 'fields': {'a': {'args': ['i']}, 'b': {'args': ['i']}},
+    # `p`: a field no transform produces or consumes: it reaches every cache layer by inheritance only
+    src = {'k': 'source', 'cls': 'S0', 'ids': ['a', 'b', 'c'], 'fields': {'a': {'args': ['i']}, 'b': {'args': ['i']}, 'p': {'args': ['i']}},
            'params': {}, 'cargs': {}, 'defaults': {}}
     t1 = {'k': 'transform', 'cls': 'T1', 'fields': {'c': {'args': rng.choice([['a'], ['a', 'b'], ['b', 'a']])},
                                                      'd': {'args': rng.choice([['a'], ['b'], ['c']]) if rng.random() < 0.6 else ['a']}},
@@ -28,7 +29,7 @@ def gen_pipeline(rng, n_roots=1):
 
     def cache():
         r = rng.random()
-        names = rng.choice([None, ['c'], ['c', 'd'], ['a', 'c', 'd']])
+        names = rng.choice([None, None, ['c'], ['c', 'd'], ['a', 'c', 'd'], ['p', 'c', 'd']])
         if r < 0.3:
             return {'k': 'ram', 'names': names, 'size': None}
         if r < 0.65:
@@ -59,7 +60,7 @@ def variant_of(rng, desc):
 
 
 def gen_history(rng, desc, n=None):
-    fields = ['c', 'd', 'a'] + (['e'] if len(desc['layers']) > 3 else [])
+    fields = ['c', 'd', 'a', 'p'] + (['e'] if len(desc['layers']) > 3 else [])
     n = n or rng.randint(5, 25)
     keys = rng.sample(KEYS, rng.randint(2, 5))
     ops = []
@@ -82,11 +83,29 @@ def gen_history(rng, desc, n=None):
     return ops
 
 
+def bracketed(desc, shape):
+    """the same layers in another bracketing (C09: same pipeline): `shape` 0 flat, 1 `src >> (rest)`, 2 `src >> ((t, cache) >> rest)`,
+    3 `(src >> t) >> (rest)`; the caches of nested chains still memoise what reaches them through the layers before"""
+    ls = desc['layers']
+
+    def ch(xs):
+        # a chain that does not start with a callable layer (a cache layer first) is a LazyChain
+        lazy = xs[0]['k'] not in ('source', 'transform', 'chain')
+        return xs[0] if len(xs) == 1 else {'k': 'chain', 'flavour': 'lazy' if lazy else 'chain', 'layers': list(xs)}
+    if shape == 1 and len(ls) >= 3:
+        return ch([ls[0], ch(ls[1:])])
+    if shape == 2 and len(ls) >= 4:
+        return ch([ls[0], ch([ch(ls[1:3]), ch(ls[3:])])])
+    if shape == 3 and len(ls) >= 4:
+        return ch([ch(ls[:2]), ch(ls[2:])])
+    return desc
+
+
 class Pipe:
-    def __init__(self, builder, desc):
+    def __init__(self, builder, desc, shape=0):
         self.builder, self.desc = builder, desc
         builder.ram_layers = []
-        self.layer = builder.layer(desc)
+        self.layer = builder.layer(bracketed(desc, shape))
         self.ram_layers = list(builder.ram_layers)
         self.fns = {}
 
@@ -111,7 +130,8 @@ def run_case(seed, scratch):
     ops = gen_history(rng, desc)
     world = SymWorld()
     b = Builder(world, roots=roots)
-    objs = [Pipe(b, desc)]
+    shape = rng.choice([0, 0, 1, 2, 3])
+    objs = [Pipe(b, desc, shape)]
     ex = Extractor(world)
     inputs = set()
     steps, real_out, meta = [], [], []
@@ -132,12 +152,12 @@ def run_case(seed, scratch):
             continue
         if op['op'] in ('rebuild', 'variant'):
             d = o.desc if op['op'] == 'rebuild' else variant_of(rng, o.desc)
-            objs.append(Pipe(b, d))
+            objs.append(Pipe(b, d, shape))
             continue
         try:
             f = o.fn(op['field'])
         except Exception as e:
-            problems.append({'kind': 'compile', 'msg': exc_name(e), 'op': op})
+            problems.append({'kind': 'compile', 'msg': exc_name(e), 'op': op, 'obj_desc': o.desc})
             continue
         try:
             out, ins = ex.graph(f)
@@ -172,9 +192,37 @@ def run_case(seed, scratch):
     return {'desc': desc, 'ops': ops, 'case': case, 'steps': steps, 'real': real_out, 'meta': meta, 'problems': problems}
 
 
+def covering_cache(d, field):
+    """-> (index p, function-name prefixes of the layers before p) of the last unbounded RAM / disk cache layer of the flat pipeline `d`
+    that covers every name the request for `field` reads across it, or None.  Behind such a layer a repeated call runs nothing of the
+    layers before it, wherever in the pipeline (and in whatever bracketing) the layer sits."""
+    ls = d['layers']
+    need = {field}
+    for p in range(len(ls) - 1, 0, -1):
+        l = ls[p]
+        if l['k'] == 'transform':
+            new = set()
+            for n in need:
+                new |= set(l['fields'][n]['args']) if n in l.get('fields', {}) else {n}
+            need = new
+            if any(a.startswith('_') for a in need):
+                return None
+        elif l['k'] in ('ram', 'disk'):
+            if (l['k'] == 'disk' or l.get('size') is None) and (l.get('names') is None or need <= set(l['names'])):
+                before = []
+                for q in ls[:p]:
+                    for n, spec in q.get('fields', {}).items():
+                        before.append(spec.get('f') or f'{q["cls"]}.{n}')
+                return p, l['k'], set(before)
+        else:
+            return None
+    return None
+
+
 def check_case(rec, ans):
     """-> (model diffs, C04 oracle failures, C08 oracle failures)"""
     model_diffs, c04, c08 = [], [], []
+    seen_mid = {}      # (obj or desc json, field, p) -> keys returned through the covering cache layer at position p
     if 'error' in ans:
         return [['driver', ans['error']]], c04, c08
     seen_ram = {}      # (obj, field) -> keys returned through the unbounded RAM cache of the last layer since the last clear
@@ -189,6 +237,9 @@ def check_case(rec, ans):
                 for k in list(recent):
                     if k[0] == meta['obj']:
                         del recent[k]
+                for k in list(seen_mid):
+                    if k[0] == meta['obj']:
+                        del seen_mid[k]
             continue
         if canon(real['r']) != canon(m['r']):
             model_diffs.append([i, 'value', real['r'], m['r']])
@@ -213,6 +264,18 @@ def check_case(rec, ans):
         else:
             if not (real['r']['err'].startswith('user:') and meta.get('fail_at')):
                 c04.append({'step': i, 'msg': f'call {meta["field"]}({meta["key"]!r}) raised {real["r"]["err"]}'})
+        # C08: memoisation behind a cache layer anywhere in the pipeline
+        cov = covering_cache(d, meta['field']) if not byvalue else None
+        if cov:
+            p, kind, before = cov
+            mk = (meta['obj'] if kind == 'ram' else json.dumps(d, sort_keys=True), meta['field'], p)
+            key_ = repr(meta['key'])
+            ran = sorted({c[0] for c in real['log']} & before)
+            if key_ in seen_mid.get(mk, set()) and ran:
+                c08.append({'step': i, 'msg': f'repeating {meta["field"]}({meta["key"]!r}): the {kind} cache layer at position {p} of the pipeline covers '
+                                              f'everything the field reads across it, but {ran} (layers before it) executed again'})
+            if 'ok' in real['r']:
+                seen_mid.setdefault(mk, set()).add(key_)
         # C08: memoisation.  Only when the *last* layer caches the field and nothing is hashed by value upstream.
         last = d['layers'][-1]
         covers = last['k'] in ('ram', 'disk') and (last.get('names') is None or meta['field'] in last['names'])
@@ -245,6 +308,20 @@ def check_case(rec, ans):
         for cid, (n, size) in real['sizes'].items():
             if size is not None and n > size:
                 c08.append({'step': i, 'msg': f'a CacheToRam(size={size}) holds {n} entries'})
+    # a field the pipeline without cache layers has must compile (in whatever bracketing the layers are composed)
+    for pr in rec['problems']:
+        if pr['kind'] == 'compile':
+            try:
+                res_ = refsem.resolve(pr['obj_desc'])
+                if res_.get('dependency_error') or 'construct_err' in res_:
+                    continue        # some field of the pipeline needs an input nothing provides: every request raises
+                exp = refsem.expect_field(res_, pr['op']['field'])
+            except Exception:
+                continue
+            if 'term' in exp:
+                msg = f'compiling {pr["op"]["field"]} raised {pr["msg"]} but the layers in sequence define the field'
+                c04.append({'step': -1, 'msg': msg})
+                c08.append({'step': -1, 'msg': msg})
     return model_diffs, c04, c08
 
 
@@ -403,3 +480,44 @@ def run_value_zoo(scratch):
     if 'build' in out:
         return [{'msg': 'building Source >> CacheToDisk.simple raised ' + out['build']}], 0
     return [{'case': k, 'msg': f'CacheToDisk.simple over a pure field, value {k}: {v}'} for k, v in sorted(out.items())], 2 * 2 * len(_zoo())
+
+
+def run_bracketings(seed=0):
+    """systematic: src >> T1 >> cache >> T2 [>> cache2] in every bracketing of `bracketed`, every kind of unbounded cache and every
+    way a field reaches it (produced by T1, consumed by T1, inherited only): the second identical call runs nothing before the cache"""
+    import itertools
+    rng = random.Random(seed)
+    scratch = tempfile.mkdtemp(prefix='cv-brk-', dir=ensure_scratch())
+    problems, calls = [], 0
+    try:
+        for shape, kind, names, tail in itertools.product([0, 1, 2, 3], ['ram', 'disk'], [None, ['p', 'a', 'c']], [False, True]):
+            src = {'k': 'source', 'cls': 'S0', 'ids': ['a', 'b', 'c'], 'fields': {'a': {'args': ['i']}, 'b': {'args': ['i']}, 'p': {'args': ['i']}},
+                   'params': {}, 'cargs': {}, 'defaults': {}}
+            t1 = {'k': 'transform', 'cls': 'T1', 'fields': {'c': {'args': ['a'], 'f': 'T1.c'}, 'd': {'args': ['b'], 'f': 'T1.d'}},
+                  'params': {}, 'cargs': {}, 'defaults': {}, 'inherit': True}
+            cache = {'k': 'ram', 'names': names, 'size': None} if kind == 'ram' else {'k': 'disk', 'names': names or ['p', 'a', 'c', 'd'], 'root': 0}
+            t2 = {'k': 'transform', 'cls': 'T2', 'fields': {'e': {'args': ['c']}}, 'params': {}, 'cargs': {}, 'defaults': {}, 'inherit': True}
+            layers = [src, t1, cache, t2] + ([{'k': 'ram', 'names': ['e'], 'size': 2}] if tail else [])
+            desc = {'k': 'chain', 'flavour': 'chain', 'layers': layers}
+            world = SymWorld()
+            b = Builder(world, roots=[tempfile.mkdtemp(dir=scratch)])
+            pipe = Pipe(b, desc, shape)
+            for field in ['p', 'a', 'c']:
+                cov = covering_cache(desc, field)
+                try:
+                    f = pipe.fn(field)
+                    f('a')
+                    mark = world.mark()
+                    f('a')
+                    calls += 2
+                except Exception as e:
+                    problems.append({'desc': desc, 'shape': shape, 'msg': f'bracketing {shape} of {[l["k"] for l in layers]}: {field} raised {exc_name(e)}'})
+                    continue
+                ran = sorted({c[0] for c in world.since(mark)} & (cov[2] if cov else set()))
+                if cov and ran:
+                    problems.append({'desc': desc, 'shape': shape,
+                                     'msg': f'bracketing {shape} of {[l["k"] for l in layers]} (cache names {names}): repeating {field}("a") executed {ran} '
+                                            f'although the {kind} cache layer covers the field'})
+    finally:
+        shutil.rmtree(scratch, ignore_errors=True)
+    return calls, problems
